@@ -42,8 +42,8 @@ ASSUMPTIONS = [
     'SDP elements with non-minimal size descriptors are well-formed: checked for value and re-serialisation of the parsed object only',
 ]
 MIN_EVENTS = {
-    'quick': {'oracle_evals': 400000, 'instances': 80000, 'layout_checks': 80000, 'from_bytes_checks': 80000,
-              'rebuild_checks': 60000, 'pollution_steps': 3000, 'ertm_fields': 5000, 'rfcomm_frames': 2000,
+    'quick': {'oracle_evals': 400000, 'instances': 70000, 'layout_checks': 70000, 'from_bytes_checks': 70000,
+              'rebuild_checks': 55000, 'pollution_steps': 3000, 'ertm_fields': 5000, 'rfcomm_frames': 2000,
               'sdp_elements': 3000, 'sdp_size_boundaries': 16, 'uuid_ops': 1500, 'inst_l2cap-sig': 3000, 'inst_att': 5000,
               'inst_smp': 2000, 'inst_sdp-pdu': 1000, 'inst_avdtp': 6000, 'inst_avrcp-cmd': 3000, 'inst_avrcp-rsp': 3000,
               'inst_avrcp-evt': 1000, 'inst_avrcp-item': 500},
@@ -59,7 +59,7 @@ SHARD_TIMEOUT = {'quick': 900, 'thorough': 7200}
 
 def plan(tier, seed):
     n = 48 if tier == 'quick' else 640
-    per = 8 if tier == 'quick' else 24
+    per = 6 if tier == 'quick' else 24
     cases = [{'kind': 'mix', 'seed': seed * 100003 + i, 'per_unit': per} for i in range(n)]
     cases.append({'kind': 'ertm-all', 'seed': seed})
     cases.append({'kind': 'rfcomm-grid', 'seed': seed})
@@ -1009,7 +1009,9 @@ def ev_sdp_element(ev: Ev, unit):
             e = RU.de_gen(rng, 0, 4)
             if unit == 'any' or e[0] == unit:
                 break
-        sdp_element(ev, e, unit)
+        ev.unit = 'element'  # the generator bias (unit) is not part of the mechanism
+        sdp_element(ev, e, 'element')
+        ev.unit = unit
 
 
 def case_sdp_bounds(case, r: R):
